@@ -68,13 +68,89 @@ def _cfg(name):
         return f.read()
 
 
-def bench():
+def bench(config=None):
+    """One elaborated UTMITranslator per configuration (see CONFIGS), cached."""
     global _BENCH
     if _BENCH is None:
+        _BENCH = {}
+    key = repr(sorted((config or {}).items()))
+    if key not in _BENCH:
         use_repo()
         from ..hosts.ulpi_phy import TranslatorBench
-        _BENCH = TranslatorBench()
-    return _BENCH
+        _BENCH[key] = TranslatorBench(config)
+    return _BENCH[key]
+
+
+# ------------------------------------------------------------------------------------------------
+# configuration catalogue (constructor / platform / record parameters of UTMITranslator)
+# ------------------------------------------------------------------------------------------------
+STARTUP_SMALL = [1, 2, 3]
+STARTUP_OTHER = [4, 5, 7, 8, 9, 16, 17, 33]
+
+
+def cfg_rst(n, record="rst_clko", **kw):
+    return dict({"record": record, "handle_clocking": record == "rst_clko", "startup": n}, **kw)
+
+
+def config_classes(seed, quick):
+    """[(name, config)] — one configuration per value class in the quick tier (rotated by seed), all in thorough."""
+    small = STARTUP_SMALL if not quick else [STARTUP_SMALL[seed % len(STARTUP_SMALL)]]
+    other = STARTUP_OTHER if not quick else [STARTUP_OTHER[seed % len(STARTUP_OTHER)]]
+    out = []
+    for n in small:
+        out.append(("rst+clk.o handle_clocking startup=%d" % n, cfg_rst(n)))
+    for n in other:
+        out.append(("rst only startup=%d" % n, cfg_rst(n, "rst")))
+    v = [0x3D, 0x65, 0x80, 0x01][seed % 4]
+    out += [
+        ("extra const no default", {"extra": [(0x16, "const", v, None)], "phy_regs": {0x16: 0x00}}),
+        ("extra const no default, PHY already holds it", {"extra": [(0x2F, "const", v, None)], "phy_regs": {0x2F: v}}),
+        ("extra const default=value (no write)", {"extra": [(0x19, "const", 0x55, 0x55)], "phy_regs": {0x19: 0x55}}),
+        ("extra const default#value addr 0x3F", {"extra": [(0x3F, "const", v, 0x00)], "phy_regs": {0x3F: 0x00}}),
+        ("extra signal", {"extra": [(0x31, "sig", 0x10, 0x10)], "phy_regs": {0x31: 0x10}}),
+        ("two extras (const + signal)", {"extra": [(0x16, "const", v, None), (0x07, "sig", 0x00, 0x00)],
+                                         "phy_regs": {0x16: 0xFF, 0x07: 0x00}}),
+        ("platform registers + raw clock domain", cfg_rst(2 + seed % 3, platform={"extra": {0x16: v}, "raw_domain": "usb_io"},
+                                                          use_platform_registers=True, phy_regs={0x16: 0x00})),
+        ("platform registers ignored (use_platform_registers=False)",
+         {"platform": {"extra": {0x16: v}, "raw_domain": None}, "use_platform_registers": False}),
+        ("DomainRenamer usb->phyb", cfg_rst(3, "rst", domain="phyb")),
+    ]
+    if quick:
+        # keep the quick tier small: the two reset records + a seed-rotated half of the rest (all classes in two seeds)
+        rest = out[2:]
+        out = out[:2] + [c for k, c in enumerate(rest) if (k + seed) % 2 == 0 or "platform registers +" in c[0]]
+    return out
+
+
+def config_constants(config, maxlen=5, max_stall=2):
+    """cfg substitutions of UlpiRegTrace for a configuration."""
+    cfg = config or {}
+    xs = [(a, cfg.get("phy_regs", {}).get(a, 0)) for a, _, _, _ in cfg.get("extra", [])]
+    if cfg.get("use_platform_registers") and cfg.get("platform"):
+        xs += [(a, cfg.get("phy_regs", {}).get(a, 0)) for a in sorted(cfg["platform"].get("extra") or {})]
+    xs += [(64, 0)] * (2 - len(xs))
+    n = cfg.get("startup") or 0
+    wb, tb = reg_bounds(maxlen, max_stall)
+    nx = len([x for x in xs if x[0] != 64])
+    extra_writes = nx * (2 * (max_stall + 1) + 8)         # the extra registers may be written first
+    return {"X1Addr": xs[0][0], "X1Reset": xs[0][1], "X2Addr": xs[1][0], "X2Reset": xs[1][1],
+            "Startup": n, "WBound": wb + n + 4 + extra_writes, "TBound": tb + n + 4 + extra_writes}
+
+
+def split_at_reset(trace):
+    """A domain reset (with RESETB wired to the PHY) starts a fresh execution: cut the trace there."""
+    segs, cur = [], []
+    for r in trace:
+        if r.get("rst"):
+            if cur:
+                segs.append(cur)
+            cur = []
+        else:
+            cur.append(r)
+    if cur:
+        segs.append(cur)
+    return segs
 
 
 def fc(c):
@@ -87,7 +163,7 @@ def otg(c):
     return otg_control(c)
 
 
-CTRL_KEYS = ("xcvr", "term", "opm", "susp", "idpu", "dppd", "dmpd", "dischrg", "chrg", "extvbus")
+CTRL_KEYS_T = CTRL_KEYS = ("xcvr", "term", "opm", "susp", "idpu", "dppd", "dmpd", "dischrg", "chrg", "extvbus")
 
 # ------------------------------------------------------------------------------------------------
 # stimulus generators (PHY choice lists, control schedules, packets)
@@ -268,7 +344,7 @@ def _ctrl_of(r):
 
 
 def _unsettled(r):
-    return fc(r) != r["r4"] or otg(r) != r["ra"]
+    return fc(r) != r["r4"] or otg(r) != r["ra"] or r.get("x1", 0) != r.get("p1", 0) or r.get("x2", 0) != r.get("p2", 0)
 
 
 def reg_triggers(trace, upto):
@@ -370,25 +446,40 @@ def _env_guard(rep, items, verdict_fn=None):
 
 
 # ------------------------------------------------------------------------------------------------
-def run_scripts(rep, scripts):
-    """Run (script, meta) pairs on the real module; returns [(trace, meta)]."""
+def run_scripts(rep, scripts, config=None):
+    """Run (script, meta) pairs on the real module; returns [(trace, meta)] (cut at domain resets)."""
     out = []
-    b = bench()
+    b = bench(config)
     for script, meta in scripts:
         recs, phy, tx = b.run(script)
         rep.add_eval(len(recs))
-        m = dict(meta)
-        m["phy_events"] = len(phy.events)
-        m["packets_sent"] = len(tx.sent)
-        out.append((recs, m))
+        for k, seg in enumerate(split_at_reset(recs)):
+            m = dict(meta)
+            m["phy_events"] = len(phy.events)
+            m["packets_sent"] = len(tx.sent)
+            if k:
+                m["after_reset"] = k
+            out.append((seg, m))
     return out
+
+
+FIELDS = {
+    "UlpiRxTrace": ("dir", "nxt", "di", "rr", "rxv", "rxd", "rxa", "ls", "vv", "sv", "se", "rxe", "hd", "idd"),
+    "UlpiTxTrace": ("dir", "nxt", "txv", "txd", "opm", "do", "oe", "stp", "txr"),
+    "UlpiRegTrace": ("dir", "nxt", "txv", "do", "oe", "stp", "r4", "ra", "p1", "p2", "x1", "x2") + CTRL_KEYS_T,
+}
 
 
 def validate(rep, module, cfg, items, classify):
     """validate_group + machinery guard: an Env-legality rejection is a harness error, not a violation."""
     from ..core import Machinery
 
+    full = [t for t, _ in items]
+    keys = FIELDS[module]
+    items = [([{k: r.get(k, 0) for k in keys} for r in t], dict(m, _i=i)) for i, (t, m) in enumerate(items)]
+
     def cls(trace, matched, status, meta):
+        trace = full[meta["_i"]]
         if status.startswith("env_"):
             keys = ("dir", "nxt", "di", "txv", "txd", "txr", "opm", "do", "stp", "r4", "ra")
             ctx = [{k: r[k] for k in keys} for r in trace[max(0, matched - 4):matched]]
@@ -487,6 +578,23 @@ def check_C22(rep):
         rx_nontriv(rep, trace)
     cfg = tlc.render_cfg(_cfg("UlpiRxTrace.cfg.tmpl"), {"CheckStream": "TRUE"})
     validate(rep, "UlpiRxTrace", cfg, items, classify_rx)
+
+    # 2d. configuration sweep: RESETB/clock records, domain reset in mid-receive, renamed / raw clock domains
+    classes = [c for c in config_classes(rep.seed, quick) if "record" in c[1]]
+    for name, config in classes:
+        cscripts = []
+        for k in range(4 if quick else 25):
+            n = 200
+            sc = {"n": n, "choices": phy_choices(rng, n, rx_rate=0.15, acc_p=1.0, clean=True, maxlen=8),
+                  "phy": {"clean_rx": True, "max_stall": 3}, "resets": set(rng.sample(range(10, n - 30), 2))}
+            cscripts.append((sc, {"class": "clean", "origin": "config-sweep", "config": name}))
+        citems = run_scripts(rep, cscripts, config)
+        for trace, meta in citems:
+            rx_nontriv(rep, trace)
+            rep.nontriv(("config", name.split(" startup")[0]))
+        validate(rep, "UlpiRxTrace", cfg, citems, classify_rx)
+    rep.extra["configurations"] = ["base: plain record, handle_clocking=False"] + [n for n, _ in classes] + \
+        ["ULPIRegisterWindow + ULPIRxEventDecoder (register reads)"]
 
     # 3. register reads (UTMITranslator cannot issue them): register window + RxCmd decoder wired as in the
     #    translator; read data (values that decode to other line states / RxActive) must never act as an RxCmd
@@ -600,6 +708,26 @@ def check_C23(rep):
         tx_nontriv(rep, trace)
     cfg = tlc.render_cfg(_cfg("UlpiTxTrace.cfg.tmpl"), {"MaxStart": 8})
     validate(rep, "UlpiTxTrace", cfg, items, classify_tx)
+
+    # configuration sweep: RESETB/clock records with the start-up wait, domain resets in mid-packet, platform raw clock
+    # domain, renamed clock domain (the transmit path itself has no parameters)
+    classes = [c for c in config_classes(rep.seed, quick) if "record" in c[1]]
+    for name, config in classes:
+        cscripts = []
+        for k in range(4 if quick else 25):
+            sc = tx_script(rng, 240, rng.randint(3, 6), rng.choice([1, 3, 6]), [0, 0, 1, 2, 2, 3],
+                           rng.choice([0.4, 1.0]), rng.choice([0.0, 0.05]))
+            sc["resets"] = set(rng.sample(range(10, 180), rng.choice([1, 2])))
+            cscripts.append((sc, {"class": "clean", "origin": "config-sweep", "config": name}))
+        citems = run_scripts(rep, cscripts, config)
+        for trace, meta in citems:
+            tx_nontriv(rep, trace)
+            rep.nontriv(("config", name.split(" startup")[0]))
+        nx = len(config.get("extra", [])) + len((config.get("platform") or {}).get("extra") or {})
+        cfg = tlc.render_cfg(_cfg("UlpiTxTrace.cfg.tmpl"), {"MaxStart": 8 + config["startup"] + 4 + 12 * nx})
+        validate(rep, "UlpiTxTrace", cfg, citems, classify_tx)
+        items += citems
+    rep.extra["configurations"] = ["base: plain record, handle_clocking=False"] + [n for n, _ in classes]
     sent = sum(m["packets_sent"] for _, m in items)
     rep.notes.append("%d UTMI packets completed on the real module in %d traces" % (sent, len(items)))
     tr = next(t for t, m in items if m["packets_sent"])
@@ -616,6 +744,8 @@ def reg_nontriv(rep, trace):
         mism = _unsettled(r)
         if mism or (r["do"] >> 6) == 2 or r["stp"]:
             rep.nontriv(("reg", r["do"] >> 6, r["nxt"], r["stp"], r["dir"], mism, r["txv"]))
+            if (r["do"] >> 6) == 2 and r["nxt"]:
+                rep.nontriv(("reg_addr", r["do"] & 63))
 
 
 def reg_bounds(maxlen, max_stall):
@@ -734,8 +864,42 @@ def check_C24(rep):
     items = run_scripts(rep, scripts)
     for trace, meta in items:
         reg_nontriv(rep, trace)
-    cfg = tlc.render_cfg(_cfg("UlpiRegTrace.cfg.tmpl"), {"WBound": wb, "TBound": tb})
+    cfg = tlc.render_cfg(_cfg("UlpiRegTrace.cfg.tmpl"), config_constants(None, maxlen, max_stall))
     validate(rep, "UlpiRegTrace", cfg, items, classify_reg)
+
+    # 3. configuration sweep: records with RESETB/clock pins and the start-up wait (scaled constant), domain resets in
+    #    mid-operation, extra registers (constant / signal, with and without default, platform-provided), a raw clock
+    #    domain from the platform, a renamed clock domain
+    classes = config_classes(rep.seed, quick)
+    if not quick:
+        classes.append(("real 1 ms start-up wait (60000 cycles)", cfg_rst(None, "rst")))
+    for name, config in classes:
+        real = "real 1 ms" in name
+        xs = [a for a, k, _, _ in config.get("extra", []) if k == "sig"]
+        cscripts = []
+        for k in range(1 if real else (5 if quick else 30)):
+            n = 60400 if real else 230
+            sc = reg_script(rng, n if not real else 400, k % 2 == 0, maxlen, max_stall)
+            sc["n"] = n
+            if real:
+                sc["choices"] = sc["choices"][:300]
+                sc["starts"] = {50, 60100}
+                sc["ctrl"] = {20: {"opm": 1}, 60150: {"opm": 2, "idpu": 1}}
+            if "record" in config and not real:
+                sc["resets"] = set(rng.sample(range(20, n - 80), rng.choice([1, 1, 2])))
+            if xs:
+                sc["xsig"] = {t: {a: rng.choice([0x00, 0x10, 0x22, 0xFF, rng.randrange(256)]) for a in xs}
+                              for t in rng.sample(range(3, n - 70), rng.randint(1, 5))}
+            cscripts.append((sc, {"class": "clean" if k % 2 == 0 else "raw", "origin": "config-sweep", "config": name}))
+        citems = run_scripts(rep, cscripts, config)
+        for trace, meta in citems:
+            reg_nontriv(rep, trace)
+            rep.nontriv(("config", name.split(" startup")[0]))
+        consts = config_constants(dict(config, startup=60000) if real else config, maxlen, max_stall)
+        cfg = tlc.render_cfg(_cfg("UlpiRegTrace.cfg.tmpl"), consts)
+        validate(rep, "UlpiRegTrace", cfg, citems, classify_reg)
+        items += citems
+    rep.extra["configurations"] = ["base: plain record, handle_clocking=False, no extra registers"] + [n for n, _ in classes]
     clean = [(t, m) for t, m in items if m["class"] == "clean"]
     rep.notes.append("%d clean / %d raw+witness traces; PHY register writes observed: %d" % (
         len(clean), len(items) - len(clean), sum(1 for t, _ in items for i in range(1, len(t))
